@@ -124,6 +124,31 @@ func c19Run(c c19Case, mk *c19Markers, rec *vh.Recorder) error {
 	var classes []string
 	nt := false
 	desc := fmt.Sprintf("%+v", c)
+	// messages already delivered stay delivered: what the receiver was handed (credentials, descriptor numbers) must read
+	// the same after later messages have been received on the socket
+	type held struct {
+		op   int
+		msg  unixsocket.Msg
+		cred *syscall.Ucred
+		fds  []int
+	}
+	var helds []held
+	recheck := func(at int) error {
+		for _, h := range helds {
+			if h.cred != nil && (h.msg.Cred == nil || *h.msg.Cred != *h.cred) {
+				return vh.Violf("C19:credentials-changed-after-delivery", "the message received at op %d carried credentials %+v; after the receive at op %d the same Msg reads %+v; %s", h.op, *h.cred, at, h.msg.Cred, desc)
+			}
+			if len(h.msg.Fds) != len(h.fds) {
+				return vh.Violf("C19:descriptors-changed-after-delivery", "the message received at op %d had descriptors %v; after op %d the same Msg reads %v; %s", h.op, h.fds, at, h.msg.Fds, desc)
+			}
+			for i := range h.fds {
+				if h.msg.Fds[i] != h.fds[i] {
+					return vh.Violf("C19:descriptors-changed-after-delivery", "the message received at op %d had descriptors %v; after op %d the same Msg reads %v; %s", h.op, h.fds, at, h.msg.Fds, desc)
+				}
+			}
+		}
+		return nil
+	}
 	for oi, op := range c.Ops {
 		switch op.Kind {
 		case "send":
@@ -209,6 +234,10 @@ func c19Run(c c19Case, mk *c19Markers, rec *vh.Recorder) error {
 				}
 			}
 			n, msg, err := b.RecvMsg(buf)
+			if rerr := recheck(oi); rerr != nil {
+				closeInts(msg.Fds)
+				return rerr
+			}
 			if lowered {
 				syscall.Setrlimit(syscall.RLIMIT_NOFILE, &oldLim)
 				nt = true
@@ -267,6 +296,15 @@ func c19Run(c c19Case, mk *c19Markers, rec *vh.Recorder) error {
 				if msg.Cred == nil || *msg.Cred != *wantCred {
 					return vh.Violf("C19:credentials", "op %d: received credentials %+v, sender specified %+v; %s", oi, msg.Cred, wantCred, desc)
 				}
+			}
+			h := held{op: oi, msg: msg, fds: append([]int(nil), msg.Fds...)}
+			if msg.Cred != nil {
+				cc := *msg.Cred
+				h.cred = &cc
+			}
+			helds = append(helds, h)
+			if len(helds) >= 2 {
+				classes = append(classes, "earlier-message-rechecked-after-later-receive")
 			}
 		}
 	}
@@ -356,6 +394,9 @@ type c19GMsg struct {
 	N     int
 	NFds  int
 	First bool
+	// the receiver expects the other message type: the frame arrives whole (with its descriptors) and is then rejected by
+	// the decoder; only generated as the last message of a history
+	Mismatch bool `json:",omitempty"`
 }
 
 type c19GCase struct {
@@ -416,7 +457,7 @@ func c19MakeReply(m c19GMsg) container.VerifReply {
 
 func TestC19Gob(t *testing.T) {
 	rec := vh.NewRecorder(t, "C19", "exploration",
-		"framed part: sequences of 1..12 real protocol messages (cmd: ping, open batch, execve, oversize execve/open; reply: ok, error, exec result, batch, oversize batch) over the gob-framed layer of a fresh socket pair, with 0..3 descriptors, starting with or without a small first message of each type; oracle: every message whose SendMsg succeeded is received as an equal value with its descriptors, in order; an oversize message is rejected at the sender and the following messages still decode; non-trivial = an oversize message followed by a normal one of the same type")
+		"framed part: sequences of 1..12 real protocol messages (cmd: ping, open batch, execve, oversize execve/open; reply: ok, error, exec result, batch, oversize batch) over the gob-framed layer of a fresh socket pair, with 0..3 descriptors, starting with or without a small first message of each type; oracle: every message whose SendMsg succeeded is received as an equal value with its descriptors, in order; an oversize message is rejected at the sender and the following messages still decode; one history in four ends with a frame (0..3 descriptors) that the receiver decodes as the other message type: it is rejected and its descriptors reach the caller with the error; the descriptor count returns to the baseline on every path; non-trivial = an oversize message followed by a normal one of the same type")
 	dir, err := vh.ScratchDir("c19g")
 	if err != nil {
 		t.Fatalf("INFRA: %v", err)
@@ -435,6 +476,12 @@ func TestC19Gob(t *testing.T) {
 				c.Msgs = append(c.Msgs, c19GMsg{Type: "cmd", Kind: rapid.SampledFrom([]string{"ping", "open", "exec", "exec", "big-exec", "big-open"}).Draw(rt, "ck"), N: rapid.IntRange(0, 5000).Draw(rt, "n"), NFds: rapid.SampledFrom([]int{0, 0, 1, 2, 3, 254}).Draw(rt, "nfds")})
 			} else {
 				c.Msgs = append(c.Msgs, c19GMsg{Type: "reply", Kind: rapid.SampledFrom([]string{"ok", "err-reply", "exec-reply", "batch-reply", "big-batch"}).Draw(rt, "rk"), N: rapid.IntRange(0, 5000).Draw(rt, "n"), NFds: rapid.IntRange(0, 3).Draw(rt, "nfds")})
+			}
+		}
+		if last := &c.Msgs[len(c.Msgs)-1]; !strings.HasPrefix(last.Kind, "big-") && last.NFds <= 253 && rapid.IntRange(0, 3).Draw(rt, "mismatch") == 0 {
+			last.Mismatch = true
+			if last.NFds == 0 {
+				last.NFds = rapid.IntRange(0, 3).Draw(rt, "mfds")
 			}
 		}
 		return c
@@ -485,6 +532,18 @@ func TestC19Gob(t *testing.T) {
 				seenType[m.Type] = true
 			}
 		}
+		leakCheck := func() error {
+			for i := 0; i < 50 && fdCount() != base; i++ {
+				time.Sleep(time.Millisecond)
+			}
+			if n := fdCount(); n != base {
+				if leaked := leakedFds(baseList); n > base && len(leaked) > 0 {
+					return vh.Violf("C19:descriptor-leak", "framed layer: %d descriptors after, %d before; new: %v (descriptors that arrived with a rejected frame must reach the caller with the error, or be closed); %s", n, base, leaked, desc)
+				}
+				rec.Class("fd-count-changed-by-unrelated-descriptor(not judged)", 1)
+			}
+			return nil
+		}
 		nt := false
 		poisoned := map[string]bool{} // type whose first use was an oversize message (open known finding)
 		lastBig := map[string]bool{}
@@ -519,6 +578,21 @@ func TestC19Gob(t *testing.T) {
 			if err != nil {
 				return vh.Violf("C19:gob-send-refused", "msg %d (%s %s) that fits the frame was refused: %v; %s", i, m.Type, m.Kind, err, desc)
 			}
+			if m.Mismatch {
+				other := m
+				other.Type = map[string]string{"cmd": "reply", "reply": "cmd"}[m.Type]
+				_, msg, rerr := recv(other)
+				closeInts(msg.Fds)
+				if rerr == nil && m.Kind != "ok" && m.Kind != "ping" {
+					// (an all-zero value has no fields on the wire and decodes into anything)
+					return vh.Violf("C19:gob-value", "msg %d: a %s %s was accepted by a receiver expecting the other message type; %s", i, m.Type, m.Kind, desc)
+				}
+				if m.NFds > 0 {
+					nt = true
+					rec.Class("frame-with-descriptors-rejected-by-the-decoder", 1)
+				}
+				return leakCheck()
+			}
 			got, msg, rerr := recv(m)
 			if lastBig[m.Type] {
 				nt = true
@@ -526,6 +600,9 @@ func TestC19Gob(t *testing.T) {
 			if poisoned[m.Type] {
 				if rerr != nil {
 					closeInts(msg.Fds)
+					if lerr := leakCheck(); lerr != nil {
+						return lerr
+					}
 					if !vh.Known("C19", "C19:gob-first-use-oversize") {
 						return vh.Violf("C19:gob-first-use-oversize", "msg %d (%s %s) was sent successfully but cannot be received (%v): an earlier oversize message was the first use of this type on the connection, the encoder counts its type definition as transmitted although the frame was discarded; %s", i, m.Type, m.Kind, rerr, desc)
 					}
@@ -557,14 +634,8 @@ func TestC19Gob(t *testing.T) {
 			seenType[m.Type] = true
 			lastBig[m.Type] = false
 		}
-		for i := 0; i < 50 && fdCount() != base; i++ {
-			time.Sleep(time.Millisecond)
-		}
-		if n := fdCount(); n != base {
-			if leaked := leakedFds(baseList); n > base && len(leaked) > 0 {
-				return vh.Violf("C19:descriptor-leak", "framed layer: %d descriptors after, %d before; new: %v; %s", n, base, leaked, desc)
-			}
-			rec.Class("fd-count-changed-by-unrelated-descriptor(not judged)", 1)
+		if err := leakCheck(); err != nil {
+			return err
 		}
 		rec.Case(c, nt, fmt.Sprintf("warm=%v", c.Warm))
 		if nt && rec.WantSample() {
